@@ -195,8 +195,14 @@ def handleAwsOp (prev : Option PGroup) (j : Json) : OpOut × Option PGroup :=
           (if Spec.C17.attachHolds g.id acq oJ then [] else ["C17:attach-partition"]) ++
           (if Spec.C18.holds acq oJ oErr then [] else ["C18:leak"])
         | none => []
+      -- C04 at provider level: no request may take the group above the cloud maximum, counted from the desired
+      -- size as it really stands (the model's cached group follows every accepted operation of the sequence)
+      let m04 := oJ.filterMap (fun e => match e.call with
+        | .createFleet req => if g.asg.desired + req.total > g.asg.max then some "C04:fleet-request-above-cloud-max" else none
+        | .setDesired _ v => if v > g.asg.max then some "C04:desired-above-cloud-max" else none
+        | _ => none)
       ({ diffs := (if r.j == oJ then [] else ["journal"]) ++ (if mOut == oOut then [] else ["outcome"]),
-         mon := m17 ++ m1718,
+         mon := m17 ++ m1718 ++ m04,
          tag := "awsop:increase:" ++ (match r.val.err with | .none => "ok" | .rejected => "rejected" | .failed => "failed" | .fatal => "fatal") ++ (if seq > 0 then ":seq" else ""),
          model := Json.mkObj [("j", toJson r.j), ("outcome", toJson mOut)] }, some r.val.g)
     else
